@@ -149,7 +149,7 @@ for _p, _t in ADD2.items():
     if not ADD[_p]['technique']:
         ADD[_p]['technique'] = 'sibling (mirror-function) agreement'
 ADD3 = {
- 'C01': ('interprocedural escape analysis of caller-owned byte buffers (returns-alias / keeps / returns-fresh summaries to a fixpoint)', 'Also: gap handling is safe without a chunk; a pointer into a caller\'s bytes (every (bytes, length) parameter, the data field of data records, the current chunk) is never stored in a structure or container that outlives the call, except at three reviewed sites and in the setters whose caller chooses the allocation strategy (118 buffers followed).'),
+ 'C01': ('interprocedural escape analysis of caller-owned byte buffers (returns-alias / keeps / returns-fresh summaries to a fixpoint)', 'Also: gap handling is safe without a chunk; a pointer into a caller\'s bytes (every (bytes, length) parameter, the data field of data records, the current chunk) is never stored in a structure or container that outlives the call, except at three reviewed sites and in the setters whose caller chooses the allocation strategy (118 buffers followed); no pointer is dereferenced at a point from which its own NULL test is reached without an assignment in between (1119 tests).'),
  'C02': ('mined co-update invariants (fields written together at every site)', 'Also: every server personality fills all four parser slots; the base64 decoder step and carry change together.'),
  'C06': ('mined co-update invariants (fields written together at every site)', 'Also: the stream offset moves wherever the read offset of the same direction advances and vice versa; a body data record gets transaction and length together.'),
  'C07': ('mined co-update invariants (fields written together at every site)', 'Also: request-side decompression is set up only when enabled and torn down with the transaction; the zlib input and output windows are always set as (pointer, size) pairs.'),
